@@ -955,4 +955,279 @@ theorem Reduce_eq (V : Valuer F) (e : RExpr F) :
 
 end
 
+/-! ## `matchRegex`, `matchExactRegex` on well-formed trees -/
+
+theorem isPanic_bind {α β} {x : OpRes α} {f : α → OpRes β} (hx : x.isPanic = false)
+    (hf : ∀ a, (f a).isPanic = false) : (x >>= f).isPanic = false := by
+  cases x with
+  | ok a => exact hf a
+  | err m => rfl
+  | panic s => cases hx
+
+theorem appendLoop_ok (vals : List Str) (h : vals.length = 1) : ∀ names : List Str,
+    ∃ r, appendLoop vals names = .ok r
+  | [] => ⟨_, rfl⟩
+  | n :: rest => by
+    obtain ⟨r, hr⟩ := appendLoop_ok vals h rest
+    match vals, h with
+    | [v], _ =>
+      rw [appendLoop, idx_of_eq sMRVals0 [v] (i := 0) (n := 0) (x := v) rfl rfl, hr]
+      exact ⟨_, rfl⟩
+
+theorem prependLoop_ok (names : List Str) (h : names.length = 1) : ∀ vals : List Str,
+    ∃ r, prependLoop names vals = .ok r
+  | [] => ⟨_, rfl⟩
+  | v :: rest => by
+    obtain ⟨r, hr⟩ := prependLoop_ok names h rest
+    match names, h with
+    | [n], _ =>
+      rw [prependLoop, idx_of_eq sMRNames0 [n] (i := 0) (n := 0) (x := n) rfl rfl, hr]
+      exact ⟨_, rfl⟩
+
+theorem cartInner_ok (lv : Nat) (n : Str) (i : Nat) : ∀ (rest : List Str) (j : Nat) (out : List Str),
+    i * lv + j + rest.length ≤ out.length →
+    ∃ out', cartInner (lv : Int) n (i : Int) rest (j : Int) out = .ok out' ∧ out'.length = out.length
+  | [], _, out, _ => ⟨out, rfl, rfl⟩
+  | v :: rest, j, out, h => by
+    have hidx : (i : Int) * (lv : Int) + (j : Int) = ((i * lv + j : Nat) : Int) := by
+      simp [Int.natCast_add, Int.natCast_mul]
+    have hlt : i * lv + j < out.length := by simp only [List.length_cons] at h; omega
+    rw [cartInner, setIdx_of_eq sMRConcat out _ hidx hlt]
+    simp only [ok_bind]
+    obtain ⟨o, ho, hl⟩ := cartInner_ok lv n i rest (j + 1) (out.set (i * lv + j) (n ++ v))
+      (by simp only [List.length_cons] at h; simp only [List.length_set]; omega)
+    rw [show ((j : Int) + 1) = ((j + 1 : Nat) : Int) by omega]
+    exact ⟨o, ho, by simpa using hl⟩
+
+theorem cartOuter_ok (vals : List Str) : ∀ (rest : List Str) (i : Nat) (out : List Str),
+    (i + rest.length) * vals.length ≤ out.length →
+    ∃ out', cartOuter vals rest (i : Int) out = .ok out' ∧ out'.length = out.length
+  | [], _, out, _ => ⟨out, rfl, rfl⟩
+  | n :: rest, i, out, h => by
+    have h1 : (i + 1) * vals.length ≤ (i + (n :: rest).length) * vals.length :=
+      Nat.mul_le_mul_right _ (by simp only [List.length_cons]; omega)
+    have h2 : (i + 1) * vals.length = i * vals.length + vals.length := by rw [Nat.add_mul, Nat.one_mul]
+    obtain ⟨o1, ho1, hl1⟩ := cartInner_ok vals.length n i vals 0 out (by omega)
+    rw [cartOuter]
+    rw [show ((0 : Nat) : Int) = 0 from rfl] at ho1
+    rw [ho1]
+    simp only [ok_bind]
+    obtain ⟨o2, ho2, hl2⟩ := cartOuter_ok vals rest (i + 1) o1 (by
+      rw [hl1]
+      have : i + 1 + rest.length = i + (n :: rest).length := by simp only [List.length_cons]; omega
+      rw [this]; exact h)
+    rw [show ((i : Int) + 1) = ((i + 1 : Nat) : Int) by omega]
+    exact ⟨o2, ho2, by rw [hl2, hl1]⟩
+
+theorem concatStep_np (names vals : List Str) : (concatStep names vals).isPanic = false := by
+  unfold concatStep
+  split
+  · rename_i h
+    obtain ⟨r, hr⟩ := appendLoop_ok vals h names
+    rw [hr]; rfl
+  · split
+    · rename_i h
+      obtain ⟨r, hr⟩ := prependLoop_ok names h vals
+      rw [hr]; rfl
+    · split
+      · rfl
+      · obtain ⟨o, ho, _⟩ := cartOuter_ok vals names 0
+          (List.replicate (names.length * vals.length) []) (by simp)
+        rw [show ((0 : Nat) : Int) = 0 from rfl] at ho
+        rw [ho]; rfl
+
+theorem classWf_even : ∀ rune : List Nat, Rx.classWf rune = true → rune.length % 2 = 0
+  | [], _ => rfl
+  | [_], h => by simp [Rx.classWf] at h
+  | _ :: _ :: rest, h => by
+    rw [Rx.classWf, Bool.and_eq_true] at h
+    have := classWf_even rest h.2
+    simp only [List.length_cons]
+    omega
+
+theorem classSizeLoop_ok (rune : List Nat) (he : rune.length % 2 = 0) :
+    ∀ (fuel k : Nat) (sz : Int), 2 * k ≤ rune.length → rune.length + 2 ≤ 2 * (fuel + k) →
+      ∃ r, classSizeLoop rune fuel ((2 * k : Nat) : Int) sz = .ok r
+  | 0, k, _, h1, h2 => by omega
+  | fuel + 1, k, sz, h1, h2 => by
+    rw [classSizeLoop]
+    by_cases hlt : ((2 * k : Nat) : Int) < rune.length
+    · have hn : 2 * k + 1 < rune.length := by omega
+      rw [if_pos hlt,
+        idx_of_eq sMRRuneI1 rune (n := 2 * k + 1) (x := rune[2 * k + 1]) (by omega)
+          (List.getElem?_eq_getElem hn)]
+      simp only [ok_bind]
+      rw [idx_nat sMRRuneI rune (2 * k) (by omega)]
+      simp only [ok_bind]
+      rw [show (((2 * k : Nat) : Int) + 2) = ((2 * (k + 1) : Nat) : Int) by omega]
+      exact classSizeLoop_ok rune he fuel (k + 1) _ (by omega) (by omega)
+    · rw [if_neg hlt]; exact ⟨_, rfl⟩
+
+theorem classEnumLoop_np (rune : List Nat) (he : rune.length % 2 = 0) :
+    ∀ (fuel k : Nat) (names : List Str), 2 * k ≤ rune.length → rune.length + 2 ≤ 2 * (fuel + k) →
+      (classEnumLoop rune fuel ((2 * k : Nat) : Int) names).isPanic = false
+  | 0, k, _, h1, h2 => by omega
+  | fuel + 1, k, names, h1, h2 => by
+    rw [classEnumLoop]
+    by_cases hlt : ((2 * k : Nat) : Int) < rune.length
+    · have hn : 2 * k + 1 < rune.length := by omega
+      rw [if_pos hlt, idx_nat sMRRuneI rune (2 * k) (by omega)]
+      simp only [ok_bind]
+      rw [idx_of_eq sMRRuneI1 rune (n := 2 * k + 1) (x := rune[2 * k + 1]) (by omega)
+          (List.getElem?_eq_getElem hn)]
+      simp only [ok_bind]
+      split
+      · rfl
+      · rw [show (((2 * k : Nat) : Int) + 2) = ((2 * (k + 1) : Nat) : Int) by omega]
+        exact classEnumLoop_np rune he fuel (k + 1) _ (by omega) (by omega)
+    · rw [if_neg hlt]; rfl
+
+theorem matchClass_np (rune : List Nat) (hw : Rx.classWf rune = true) :
+    (matchClass rune).isPanic = false := by
+  have he := classWf_even rune hw
+  unfold matchClass
+  obtain ⟨sz, hsz⟩ := classSizeLoop_ok rune he (rune.length + 1) 0 0 (by omega) (by omega)
+  rw [show (((2 * 0 : Nat)) : Int) = 0 from rfl] at hsz
+  rw [hsz]
+  simp only [ok_bind]
+  split
+  · rfl
+  · have := classEnumLoop_np rune he (rune.length + 1) 0 [] (by omega) (by omega)
+    rw [show (((2 * 0 : Nat)) : Int) = 0 from rfl] at this
+    exact this
+
+theorem wfAll_cons (r : Rx.Regex) (rest : List Rx.Regex) :
+    Rx.wfAll (r :: rest) = (r.wf && Rx.wfAll rest) := by rw [Rx.wfAll]
+
+mutual
+  theorem matchRegex_np : ∀ re : Rx.Regex, re.wf = true → (matchRegex re).isPanic = false
+    | .mk op flags rune sub, hw => by
+      rw [Rx.wf_mk, Bool.and_eq_true] at hw
+      cases op
+      case capture =>
+        rw [matchRegex]
+        split
+        · rfl
+        · have hne : sub ≠ [] := by
+            intro h; rw [h] at hw; simp at hw
+          exact matchSub0_np sub hne hw.2
+      case concat =>
+        rw [matchRegex]
+        split
+        · rfl
+        · have hne : sub ≠ [] := by
+            intro h; rw [h] at hw; simp at hw
+          exact matchConcat_np sub hne hw.2
+      case charClass =>
+        rw [matchRegex]
+        split
+        · rfl
+        · have h1 := hw.1
+          simp only [Bool.and_eq_true] at h1
+          exact matchClass_np rune h1.1
+      case alternate =>
+        rw [matchRegex]
+        split
+        · rfl
+        · apply isPanic_bind (matchAlt_np sub hw.2)
+          intro r
+          cases r <;> rfl
+      all_goals (unfold matchRegex; split <;> rfl)
+  theorem matchSub0_np : ∀ sub : List Rx.Regex, sub ≠ [] → Rx.wfAll sub = true →
+      (matchSub0 sub).isPanic = false
+    | [], h, _ => absurd rfl h
+    | r :: _, _, hw => by
+      rw [wfAll_cons, Bool.and_eq_true] at hw
+      rw [matchSub0]
+      exact matchRegex_np r hw.1
+  theorem matchConcat_np : ∀ sub : List Rx.Regex, sub ≠ [] → Rx.wfAll sub = true →
+      (matchConcat sub).isPanic = false
+    | [], h, _ => absurd rfl h
+    | r :: rest, _, hw => by
+      rw [wfAll_cons, Bool.and_eq_true] at hw
+      rw [matchConcat]
+      apply isPanic_bind (matchRegex_np r hw.1)
+      intro r0
+      cases r0 with
+      | none => rfl
+      | some names => exact concatLoop_np names rest hw.2
+  theorem concatLoop_np : ∀ (names : List Str) (sub : List Rx.Regex), Rx.wfAll sub = true →
+      (concatLoop names sub).isPanic = false
+    | _, [], _ => rfl
+    | names, r :: rest, hw => by
+      rw [wfAll_cons, Bool.and_eq_true] at hw
+      rw [concatLoop]
+      apply isPanic_bind (matchRegex_np r hw.1)
+      intro rv
+      cases rv with
+      | none => rfl
+      | some vals =>
+        apply isPanic_bind (concatStep_np names vals)
+        intro st
+        cases st with
+        | none => rfl
+        | some names' => exact concatLoop_np names' rest hw.2
+  theorem matchAlt_np : ∀ sub : List Rx.Regex, Rx.wfAll sub = true → (matchAlt sub).isPanic = false
+    | [], _ => rfl
+    | r :: rest, hw => by
+      rw [wfAll_cons, Bool.and_eq_true] at hw
+      rw [matchAlt]
+      apply isPanic_bind (matchRegex_np r hw.1)
+      intro rv
+      cases rv with
+      | none => rfl
+      | some vals =>
+        apply isPanic_bind (matchAlt_np rest hw.2)
+        intro rr
+        cases rr <;> rfl
+end
+
+theorem wfAll_drop : ∀ (n : Nat) (l : List Rx.Regex), Rx.wfAll l = true → Rx.wfAll (l.drop n) = true
+  | 0, _, h => h
+  | _ + 1, [], h => h
+  | n + 1, r :: rest, h => by
+    rw [wfAll_cons, Bool.and_eq_true] at h
+    exact wfAll_drop n rest h.2
+
+theorem wfAll_take : ∀ (n : Nat) (l : List Rx.Regex), Rx.wfAll l = true → Rx.wfAll (l.take n) = true
+  | 0, _, _ => by rw [List.take_zero, Rx.wfAll]
+  | _ + 1, [], h => h
+  | n + 1, r :: rest, h => by
+    rw [wfAll_cons, Bool.and_eq_true] at h
+    rw [List.take_succ_cons, wfAll_cons, Bool.and_eq_true]
+    exact ⟨h.1, wfAll_take n rest h.2⟩
+
+theorem matchExactTree_np (re : Rx.Regex) (hw : re.wf = true) : (matchExactTree re).isPanic = false := by
+  obtain ⟨op, flags, rune, sub⟩ := re
+  rw [Rx.wf_mk, Bool.and_eq_true] at hw
+  rw [matchExactTree]
+  split
+  · rfl
+  · rename_i hop
+    have hop' : op = .concat := by simpa using hop
+    split
+    · rfl
+    · rename_i hlen
+      have hl : 2 ≤ sub.length := by omega
+      rw [idx_of_eq sMESub0 sub (i := 0) (n := 0) (x := sub[0]) rfl (List.getElem?_eq_getElem (by omega))]
+      simp only [ok_bind]
+      split
+      · rfl
+      · rw [idx_of_eq sMESubLast sub (n := sub.length - 1) (x := sub[sub.length - 1]) (by omega)
+          (List.getElem?_eq_getElem (by omega))]
+        simp only [ok_bind]
+        split
+        · rfl
+        · rw [slice_of_eq sMESubMid sub (i := 1) (n := 1) (m := sub.length - 1) rfl (by omega)
+            (by omega) (by omega)]
+          simp only [ok_bind]
+          split
+          · rfl
+          · rename_i hin
+            apply matchRegex_np
+            rw [Rx.wf_mk, Bool.and_eq_true, hop']
+            refine ⟨?_, wfAll_drop 1 _ (wfAll_take _ _ hw.2)⟩
+            simp only [decide_eq_true_eq]
+            omega
+
 end InfluxQL.Checked
